@@ -184,7 +184,12 @@ class RealRouter:
 
     def state(self):
         r = self.router
-        return {'tree': self.proj.node(r.radidict.root),
+        try:
+            tree = self.proj.node(r.radidict.root)
+        except (AttributeError, TypeError, KeyError, IndexError, ImportError):
+            # private tree layout changed: no step-by-step comparison with the mechanism model (DRIFT); verdicts do not use it
+            tree = {'unprojectable': 1}
+        return {'tree': tree,
                 'routes': sorted(s2l(p) for p in r.routes),
                 'named': sorted([n, s2l(rt.pattern)] for n, rt in r.named_routes.items()),
                 'hooks': sorted(s2l(p) for p in r.hooks)}
